@@ -284,6 +284,44 @@ def r10(ctx, prog):
         raise AnalysisBroken('expected 2 deferred deletes of the signal read event, found %d' % n)
 
 
+def r11(ctx, prog):
+    ctx.rule('C04.R11', 'A10 delivery is total over the signal numbers: in CommonLoop::onSignal every branch between reading a signal number from the pipe and looking up its '
+             'subscribers that tests that number is folded over 1..64 (SIGRTMIN = 34, SIGRTMAX = 64): each of these numbers reaches the look-up — a "sanity" filter may '
+             'drop what no subscription can name, never a signal a subscriber can be enabled for', floor=1)
+    f = prog.fn1(CL + '::onSignal')
+    finds = [c for c in f.calls() if c.get('fn') in ('find', 'at', 'count', 'operator[]', 'equal_range') and 'obj' in c and (f.field_of(c['obj']) or '').endswith('all_signals_subscribers_') and c.get('args')]
+    if not finds:
+        raise AnalysisBroken('onSignal: look-up in all_signals_subscribers_ not found')
+    n = 0
+    for c in finds:
+        key = f.s(f.strip_casts(c['args'][0]))
+        if key is None or key['k'] != 'DeclRefExpr':
+            raise AnalysisBroken('onSignal: the look-up key is not a local variable (%s)' % f.loc(c['i']))
+        kd = key['d']
+        lost = []
+        for cond, k, b in f.cfg.controlling_branches(q.pt(f, c)):
+            if not any(f.stmts[x]['k'] == 'DeclRefExpr' and f.stmts[x].get('d') == kd for x in f.walk(cond)):
+                continue
+            n += 1
+            for v in range(1, 65):
+                def leaf(sx, v=v):
+                    if sx['k'] == 'DeclRefExpr' and sx.get('d') == kd:
+                        return v
+                    if sx['k'] in q.CALL_KINDS and (sx.get('callee') or sx.get('fn') or '').endswith('__libc_current_sigrtmax'):
+                        return 64
+                    if sx['k'] in q.CALL_KINDS and (sx.get('callee') or sx.get('fn') or '').endswith('__libc_current_sigrtmin'):
+                        return 34
+                    return None
+                r = q.eval_expr(f, cond, leaf, signed=True)
+                if r is None:
+                    raise AnalysisBroken('onSignal: the test of the signal number at %s cannot be folded' % f.loc(cond))
+                if bool(r) != (k == 0):
+                    lost.append((v, cond))
+        ctx.ob('C04.R11', '%s|all-signals-looked-up' % f.name, not lost, 'every signal number 1..64 read from the pipe reaches the subscriber look-up (%d test(s) folded)' % n if not lost else
+               'signal number(s) %s read from the pipe are discarded by the test at %s before the subscriber look-up: an event enabled for that signal installs the handler, '
+               'the handler writes the pipe, and no callback ever runs' % (sorted({v for v, _ in lost})[:6], f.loc(lost[0][1])), where=f.loc(lost[0][1]) if lost else f.loc(c['i']))
+
+
 def run(ctx):
     prog = extract('ALL' if ctx.tier == 'thorough' else SCOPE)
     ctx.guard(r1, ctx, prog)
@@ -296,4 +334,5 @@ def run(ctx):
     ctx.guard(r8, ctx, prog)
     ctx.guard(r9, ctx, prog)
     ctx.guard(r10, ctx, prog)
+    ctx.guard(r11, ctx, prog)
     return prog
